@@ -7,7 +7,10 @@ use std::ffi::{c_void, CString};
 use std::io::{Error, ErrorKind};
 use std::mem::size_of;
 use std::path::Path;
+#[cfg(not(clock_bound_verif))]
 use std::sync::atomic;
+#[cfg(clock_bound_verif)]
+use crate::verif_shim::atomic;
 use std::{fs, ptr};
 
 use std::io::Seek;
@@ -75,12 +78,16 @@ impl ShmWriter {
         // that there is only one writer running on the system and writing to `path`. Consequently,
         // it is safe to wipe clean and then update. No-one will attempt to write to the segment
         // even if this process is scheduled out.
+        #[cfg(clock_bound_verif)]
+        crate::verif_shim::point("new:start");
         if ShmWriter::is_usable_segment(path).is_err() {
             // Note that wiping the file sets the version to 0, which is used to indicate the
             // readers that the memory segment is not usable yet.
             ShmWriter::wipe(path, segsize)?
         }
 
+        #[cfg(clock_bound_verif)]
+        crate::verif_shim::point("new:checked");
         // Memory map the file.
         let addr = ShmWriter::mmap_segment_at(path, segsize)?;
 
@@ -95,6 +102,8 @@ impl ShmWriter {
             (generation, version, ceb)
         };
 
+        #[cfg(clock_bound_verif)]
+        crate::verif_shim::point("new:mapped");
         let writer = ShmWriter {
             segsize,
             addr,
@@ -118,6 +127,8 @@ impl ShmWriter {
             let version = &*writer.version;
             version.store(1_u16, atomic::Ordering::Relaxed);
         }
+        #[cfg(clock_bound_verif)]
+        crate::verif_shim::point("new:versioned");
 
         Ok(writer)
     }
@@ -174,7 +185,11 @@ impl ShmWriter {
 
         // Opens the file in write-only mode. Create a file if it does not exist, and truncate it
         // if it does.
+        #[cfg(clock_bound_verif)]
+        crate::verif_shim::point("wipe:dirs");
         let mut file = std::fs::File::create(path)?;
+        #[cfg(clock_bound_verif)]
+        crate::verif_shim::point("wipe:created");
 
         // In theory, usize may not fit within a u32. In practice, we
         let size: u32 = match segsize.try_into() {
@@ -192,15 +207,27 @@ impl ShmWriter {
 
         // Write the ShmHeader
         file.write_u32::<NativeEndian>(SHM_MAGIC[0])?; // Magic number 0
+        #[cfg(clock_bound_verif)]
+        crate::verif_shim::point("wipe:magic0");
         file.write_u32::<NativeEndian>(SHM_MAGIC[1])?; // Magic number 1
+        #[cfg(clock_bound_verif)]
+        crate::verif_shim::point("wipe:magic1");
         file.write_u32::<NativeEndian>(size)?; // Segsize
+        #[cfg(clock_bound_verif)]
+        crate::verif_shim::point("wipe:segsize");
         file.write_u16::<NativeEndian>(0)?; // Version
+        #[cfg(clock_bound_verif)]
+        crate::verif_shim::point("wipe:version");
         file.write_u16::<NativeEndian>(0)?; // Generation
+        #[cfg(clock_bound_verif)]
+        crate::verif_shim::point("wipe:generation");
 
         // Zero the rest of the segment
         let remaining = segsize - size_of::<ShmHeader>();
         let buf = vec![0; remaining];
         file.write_all(&buf)?;
+        #[cfg(clock_bound_verif)]
+        crate::verif_shim::point("wipe:zeroed");
 
         // Make sure the amount of bytes written matches the segment size
         let pos = file.stream_position()?;
@@ -216,6 +243,8 @@ impl ShmWriter {
 
         // Sync all and drop (close) the descriptor
         file.sync_all()?;
+        #[cfg(clock_bound_verif)]
+        crate::verif_shim::point("wipe:synced");
 
         Ok(())
     }
@@ -279,6 +308,8 @@ impl ShmWrite for ShmWriter {
             };
             generation.store(gen, atomic::Ordering::Release);
 
+            #[cfg(clock_bound_verif)]
+            crate::verif_shim::data_write(self.ceb, ceb);
             self.ceb.write(*ceb);
 
             // Mark the end of the update into the memory segment by incrementing the generation
